@@ -19,6 +19,7 @@ import OcVerif.Driver.Rt
 import OcVerif.Driver.Once
 import OcVerif.Driver.Sleepers
 import OcVerif.Driver.Pre
+import OcVerif.Driver.UringD
 /-!
 `ocmodel`: reads history lines `<comp> <id> : <body> => <implementation outputs>` on stdin,
 runs the Lean model on `<body>`, compares with the implementation's outputs and evaluates the
@@ -51,6 +52,7 @@ def dispatch (comp : String) : Option (String → String → Verdict) :=
   | "once" => some Driver.Once.drive
   | "sleepers" => some Driver.Sleepers.drive
   | "pre" => some Driver.Pre.drive
+  | "uring" => some Driver.UringD.drive
   | _ => none
 
 def handle (line : String) : String :=
